@@ -29,7 +29,8 @@ func (t *TransactionCancelTimer) Start() error {
 	if t.done != nil {
 		return fmt.Errorf("TransactionCancelTimer already started")
 	}
-	t.done = make(chan struct{})
+	done := make(chan struct{})
+	t.done = done
 
 	go func() {
 		timer := time.NewTimer(t.delay)
@@ -43,16 +44,16 @@ func (t *TransactionCancelTimer) Start() error {
 			if t.fnc != nil {
 				t.fnc()
 			}
-		case <-t.done:
+		case <-done:
 			// Stop the timer
 			log.Infof("TransactionCancelTimer stopped")
-			t.done = nil
 		}
 	}()
 
 	return nil
 }
 
+// Stop stops the timer. It is safe to call Stop more than once.
 func (t *TransactionCancelTimer) Stop() {
 	t.doneMutex.Lock()
 	defer t.doneMutex.Unlock()
@@ -61,4 +62,5 @@ func (t *TransactionCancelTimer) Stop() {
 		return
 	}
 	close(t.done)
+	t.done = nil
 }
